@@ -224,7 +224,7 @@ def line_lifetime(P, R):
     R.floor('C08.MPT.2', 2, 'free sites of the line buffer')
 
 
-def junk_inert(P, R):
+def junk_inert(P, R, rule='C08.GRD.1'):
     """GRD.1: dispatch calls receive either a freshly looked-up non-null request or a
     deliberate NULL; unknown ids leave the iteration before the dispatch."""
     fn = reader(P)
@@ -263,9 +263,9 @@ def junk_inert(P, R):
             sts = before.get(s.key, set())
             ok = bool(sts) and sts <= {'null', 'found'}
             n += 1
-            R.ob('C08.GRD.1', ok, s, 'dispatch %s(%s...) receives a freshly looked-up request or a deliberate NULL (states: %s)'
+            R.ob(rule, ok, s, 'dispatch %s(%s...) receives a freshly looked-up request or a deliberate NULL (states: %s)'
                  % (s.ev.get('callee'), reqvar, sorted(sts)), key='dispatch:%s' % s.ev.get('callee'))
-    R.floor('C08.GRD.1', 8, 'dispatch calls taking the request')
+    R.floor(rule, 8, 'dispatch calls taking the request')
     # no emitting default in the dispatch switch
     sends = rules.May(P, lambda s: rules.is_call(s, 'iauth_send') or rules.is_call(s, 'fputs'))
     for bid in fn.reachable_blocks():
@@ -279,7 +279,7 @@ def junk_inert(P, R):
             if e.label != 'default':
                 continue
             emit = [s for s in fn.block_sites(e.dst) if sends.site_may(s)]
-            R.ob('C08.GRD.1', not emit, P.relloc((fn.blocks[bid].get('term') or {}).get('loc', '?')),
+            R.ob(rule, not emit, P.relloc((fn.blocks[bid].get('term') or {}).get('loc', '?')),
                  'an unknown command letter produces no output', key='switch-default', detail=[s.loc for s in emit] or None)
             R.obligations[-1]['function'] = fn.name
 
